@@ -35,7 +35,7 @@ for sid in sorted(os.listdir(f"{VERIF}/seeded")):
         wall = time.time() - t0
         viol = [l for l in p.stdout.splitlines() if l.startswith("VIOLATION")]
         classes = [l for l in p.stdout.splitlines() if "violation class" in l][:4]
-        runs = re.search(r"runs=(\d+)", p.stdout)
+        runs = re.search(r"\] runs=(\d+)", p.stdout)
         verdict = "caught" if (p.returncode == 1 and viol) else ("harness-error" if p.returncode == 2 else "missed")
         results[sid] = {"property": prop, "verdict": verdict, "exit": p.returncode,
                         "violations_reported": len(viol), "classes": classes,
